@@ -28,7 +28,7 @@ def plan(tier, seed):
 def floors(tier):
     return {"distinct_nontrivial": 300, "cls:variant:one": 500, "cls:variant:in": 300, "cls:variant:contains": 300,
             "cls:variant:notin": 300, "cls:variant:notcontains": 200, "cls:variant:or_in": 150, "cls:variant:not_and_in": 150,
-            "cls:variant:and_in": 150, "cls:two_level_concatenate": 300, "cls:all_empty": 30, "cls:scalar": 100,
+            "cls:variant:and_in": 150, "cls:two_level_concatenate": 300, "cls:plain_scalar_values": 100, "cls:all_empty": 30, "cls:scalar": 100,
             "re:Concatenate(@.*)?\\.enter": 2000}
 
 
@@ -43,12 +43,24 @@ def cases(spec, ctx):
         rng.shuffle(order)
         case = {"world": w, "variant": rng.choice(["one", "one", "in", "contains", "notin", "notcontains", "or_in", "not_and_in", "and_in"]),
                 "order": order, "scalar": rng.random() < 0.1, "caching": rng.random() < 0.7, "thr": rng.randint(1, 4)}
-        if rng.random() < 0.2:
+        if rng.random() < 0.08:
+            # scalar inner values, falsy ones included: each counts as one element of the concatenation
+            for p_ in w["parents"]:
+                p_["one"] = ["s", rng.choice([0, None, "", False, 7, "z"])]
+            case["scalar"], case["variant"], case["plain_scalar"] = True, "one", True
+        elif rng.random() < 0.2:
             # two levels: concatenate(flatten(p.items).subs); inner objects are shared between parents
             case["nested"] = [[rng.randrange(5) for _ in range(rng.randint(0, 3))] for _ in range(5)]
             case["scalar"] = False
             case["variant"] = rng.choice(["one", "one", "in", "notin"])
         yield case
+
+
+class _ReprLabels(dict):
+    """labels for plain scalar elements: their repr"""
+
+    def get(self, key, default=None):
+        return default
 
 
 def check_case(case, ctx):
@@ -109,9 +121,13 @@ def check_case(case, ctx):
     finally:
         enable_caching()
     mutated = [i for i, p_ in enumerate(ps) if len(p_.items) != len(snapshot[i]) or any(a is not b for a, b in zip(p_.items, snapshot[i]))]
+    if case.get("plain_scalar"):
+        ctx.cls("cls:plain_scalar_values")
+        lab = _ReprLabels()
     if v == "one":
-        exp = [[lab[id(x)] for x in flat]]
-        obs = [[lab.get(id(x), f"?{type(x).__name__}") for x in g] if isinstance(g, (list, tuple)) else f"?{type(g).__name__}" for g in got]
+        exp = [[lab[id(x)] if not case.get("plain_scalar") else repr(x) for x in flat]]
+        obs = [[(lab.get(id(x), f"?{type(x).__name__}") if not case.get("plain_scalar") else repr(x)) for x in g]
+               if isinstance(g, (list, tuple)) else f"?{type(g).__name__}" for g in got]
         nontrivial = len(flat) >= 2 and len([p for p in ps if (case["scalar"] or p.items)]) >= 2
     else:
         member = lambda x: any(x is y for y in flat)
@@ -131,6 +147,12 @@ def check_case(case, ctx):
             if v == "one":
                 return [[lab.get(id(x), f"?{type(x).__name__}") for x in g] if isinstance(g, (list, tuple)) else f"?{type(g).__name__}" for g in rows]
             return [lab.get(id(x), f"?{type(x).__name__}") for x in rows]
+        if case.get("plain_scalar"):
+            if [[repr(x) for x in g] if isinstance(g, (list, tuple)) else "?" for g in got2] != exp or \
+                    [[repr(x) for x in g] if isinstance(g, (list, tuple)) else "?" for g in got3] != exp:
+                ctx.fail("CONCATENATE:one:re-evaluation", {"expected": exp})
+            ctx.sample({"parents": case["world"]["parents"], "variant": v, "expected": exp, "observed": obs})
+            return
         flat_exp = [[lab[id(x)] for x in flat]]
         if enc(got2) != exp:
             ctx.fail("CONCATENATE:" + v + ":second_evaluation", {"expected": exp, "observed": enc(got2), "user_lists_modified": mutated})
